@@ -13,7 +13,7 @@
    object is left at count 0 without being freed.  [touches e]: e dereferences its key (retain, release, free, use,
    close).  [count_key w o k tr] / [count_op w o tr]: number of events of kind o on key k / on any key of store w. *)
 From Coq Require Import List NArith.
-From Mimium Require Import Heap.Model Heap.SlotMap Heap.Lemmas Heap.Monitor Heap.Witness.
+From Mimium Require Import Heap.Model Heap.SlotMap Heap.Lemmas Heap.Monitor Heap.Witness Heap.WitnessUaf.
 Import ListNotations.
 Local Open Scope N_scope.
 
@@ -34,6 +34,8 @@ Proof. exact heap_inv. Qed.
    (1) every dereferencing event refers to an object that is live at that moment, was never freed before, and
        (unless it is the free itself) still has a positive count: no load/store/call/retain/release/close touches a
        freed key and a release never exceeds the references;
+   (1') every lookup that is allowed to miss (the VM tries a register value as a key: `probe`) is on a key that
+       has never been freed: a dangling handle is never even looked up;
    (2) at every prefix, releases of a key <= its allocation + retains, and a key is allocated at most once;
    (3) at the end the live objects are exactly the keys with a positive count, and for each store
        live objects + free events = alloc events. *)
@@ -46,6 +48,8 @@ Theorem C12_no_uaf_balanced :
        /\ (e_op e <> EFree ->
            count_key (e_store e) ERelease (e_key e) tr1
            < count_key (e_store e) EAlloc (e_key e) tr1 + count_key (e_store e) ERetain (e_key e) tr1))
+  /\ (forall tr1 e tr2, tr = tr1 ++ e :: tr2 -> e_op e = EProbe ->
+        count_key (e_store e) EFree (e_key e) tr1 = 0)
   /\ (forall tr1 tr2 w k, tr = tr1 ++ tr2 ->
         count_key w ERelease k tr1 <= count_key w EAlloc k tr1 + count_key w ERetain k tr1
         /\ count_key w EAlloc k tr1 <= 1)
@@ -82,6 +86,22 @@ Theorem C12_steady_state_refuted :
     /\ (exists m, mrun mach_new (prefix ++ p1 ++ p2) = Some m /\ live_count m SC = 2)
     /\ (exists m, mrun mach_new (prefix ++ p1 ++ p2 ++ p3) = Some m /\ live_count m SC = 3).
 Proof. exact steady_state_refuted. Qed.
+
+(* REFUTED on the current tree: compiled programs do use a handle after its object was released.  [uaf_trace] is the
+   real VM's H2 log (checked against the real VM on every run) of a type-correct program in which temporary closures
+   share an upvalue cell with an escaping closure (Heap/WitnessUaf.v, known finding F25): the monitor accepts a
+   prefix, then the VM looks up a handle that an allocation of the same trace handed out and whose object has been
+   freed since; the real VM panics right after ("Invalid indirect callable"). *)
+Theorem C12_no_uaf_refuted :
+  exists (tr1 : list event) (e : event) (tr2 : list event) (m1 : mach),
+    uaf_trace = tr1 ++ e :: tr2
+    /\ mrun mach_new tr1 = Some m1
+    /\ e_op e = EProbe /\ e_rc e = None
+    /\ count_key (e_store e) EAlloc (e_key e) tr1 = 1
+    /\ count_key (e_store e) EFree (e_key e) tr1 = 1
+    /\ mstep m1 e = None
+    /\ balanced uaf_trace = false.
+Proof. exact no_uaf_refuted. Qed.
 
 (* the hypotheses are satisfiable *)
 Example C12_balanced_example :
